@@ -2,10 +2,13 @@
 package main
 
 import (
+	"context"
+	"encoding/json"
 	"fmt"
 	"os"
 
 	"github.com/bufbuild/bufverif/checks/c07"
+	"github.com/bufbuild/bufverif/internal/bufx"
 	"github.com/bufbuild/bufverif/internal/evid"
 )
 
@@ -25,6 +28,34 @@ func main() {
 		}
 		fmt.Print(c07.Debug(string(b)))
 		os.Exit(0)
+	}
+	if len(args) == 2 && args[0] == "replay" {
+		// triage helper: re-run the library-level oracles on the recorded input of a replay file
+		b, err := os.ReadFile(args[1])
+		if err != nil {
+			fmt.Fprintln(os.Stderr, err)
+			os.Exit(2)
+		}
+		var rec struct {
+			Case json.RawMessage `json:"case"`
+		}
+		if err := json.Unmarshal(b, &rec); err != nil {
+			fmt.Fprintln(os.Stderr, err)
+			os.Exit(2)
+		}
+		msg, violated := evid.LookupReplay("C07")(rec.Case)
+		fmt.Println(msg)
+		if violated {
+			os.Exit(1)
+		}
+		os.Exit(0)
+	}
+	if len(args) >= 1 && args[0] == "buf" {
+		// triage helper: the in-process CLI exactly as the check drives it
+		res := bufx.RunCLI(context.Background(), nil, "", args[1:]...)
+		fmt.Print(res.Stdout)
+		fmt.Fprint(os.Stderr, res.Stderr)
+		os.Exit(res.ExitCode)
 	}
 	if len(args) < 2 || args[0] != "check" {
 		fmt.Fprintln(os.Stderr, "usage: check <id> [--tier quick|thorough]")
